@@ -22,6 +22,9 @@ func ParseRate(rateArg string) (int, time.Duration, error) {
 			return rate, unit, fmt.Errorf("rate %s can't be negative", rateArg)
 		}
 		unitArg := (rateArg)[strings.Index(rateArg, "/")+1:]
+		if unitArg == "" {
+			return rate, unit, fmt.Errorf("unable to parse unit %s: missing duration", rateArg)
+		}
 		if !isNumeric(unitArg[0:1]) {
 			unitArg = "1" + unitArg
 		}
